@@ -66,6 +66,8 @@ type Ctx struct {
 	KnownHit    []string
 	Variants    []string
 	RuleAlias   map[string]string
+	// Degraded: functions left unnormalised after an internal failure.
+	Degraded []string
 	// KeyOnly restricts what a borrowed rule records to the constructs the
 	// borrowing property depends on.
 	KeyOnly func(key string) bool
@@ -91,7 +93,46 @@ func isRulePkgPath(path string) bool {
 	return inModulePath(path) && !strings.HasSuffix(path, "/internal/testutils")
 }
 
-func (c *Ctx) load(bc buildConfig) error {
+// normFailure: the normaliser produced malformed SSA for one function. The
+// load is repeated with that function left as the builder made it: the
+// rules then see its original shape (and may report what the normalisation
+// would have explained away), which is better than failing every property.
+type normFailure struct {
+	fn  string
+	msg string
+}
+
+// skipNormalize: functions (by full name) that are not rewritten.
+var skipNormalize = map[string]bool{}
+
+func (c *Ctx) load(bc buildConfig) (err error) {
+	for attempt := 0; attempt < 6; attempt++ {
+		var nf *normFailure
+		func() {
+			defer func() {
+				if r := recover(); r != nil {
+					if f, ok := r.(normFailure); ok {
+						nf = &f
+						return
+					}
+					panic(r)
+				}
+			}()
+			err = c.loadOnce(bc)
+		}()
+		if nf == nil {
+			return err
+		}
+		if skipNormalize[nf.fn] {
+			return fmt.Errorf("normalisation of %s keeps failing: %s", nf.fn, nf.msg)
+		}
+		skipNormalize[nf.fn] = true
+		c.Degraded = append(c.Degraded, fmt.Sprintf("%s is analysed without normalisation (%s)", nf.fn, nf.msg))
+	}
+	return fmt.Errorf("normalisation keeps failing")
+}
+
+func (c *Ctx) loadOnce(bc buildConfig) error {
 	c.Config = bc
 	c.memo = map[string]interface{}{}
 	env := append(os.Environ(), "GOFLAGS=-mod=mod", "GOPROXY=off", "GOSUMDB=off", "GOTOOLCHAIN=local", "GOWORK=off")
